@@ -313,6 +313,10 @@ pub enum Family {
     /// pawn on the seventh with every combination of capture targets (incl. home rooks with
     /// rights) and promotion-square occupancy
     Promotion,
+    /// the castling set-up of `Castle` with the *other* side to move and its king on the two
+    /// ranks next to the castler's home rank (it can take an unmoved rook, or move along the
+    /// enemy back rank while the rights are still there); walked one ply deep
+    Intruder,
 }
 
 pub fn family_name(f: Family) -> String {
@@ -321,6 +325,7 @@ pub fn family_name(f: Family) -> String {
         Family::Castle => "castling-under-attack".into(),
         Family::EnPassant => "en-passant-discoveries".into(),
         Family::Promotion => "promotion-targets".into(),
+        Family::Intruder => "king-among-unmoved-rooks".into(),
     }
 }
 
@@ -330,6 +335,7 @@ pub fn family_size(f: Family) -> u64 {
         Family::Castle => 2 * 3 * 64 * 64 * 5,
         Family::EnPassant => 2 * 14 * 64 * 4 * 64 * 3,
         Family::Promotion => 2 * 8 * 5 * 5 * 3 * 6 * 16,
+        Family::Intruder => 2 * 3 * 16 * 64 * 5,
     }
 }
 
@@ -378,6 +384,34 @@ pub fn family_nth(f: Family, mut i: u64) -> Option<Pos> {
             p.castle[base] = rooks != 2;
             p.castle[base + 1] = rooks != 1;
             p.white_to_move = white;
+        }
+        Family::Intruder => {
+            let white = take(2) == 0; // the side that still has its rights
+            let rooks = take(3);
+            let eki = take(16);
+            let x = take(64) as usize;
+            let xk = [o::QUEEN, o::ROOK, o::BISHOP, o::KNIGHT, o::PAWN][take(5) as usize];
+            let r = if white { 0 } else { 7 };
+            let ek = o::sq((eki % 8) as i8, if eki < 8 { r } else if white { 1 } else { 6 }) as usize;
+            p.b[o::sq(4, r) as usize] = o::mk(o::KING, white);
+            if rooks != 2 {
+                p.b[o::sq(7, r) as usize] = o::mk(o::ROOK, white);
+            }
+            if rooks != 1 {
+                p.b[o::sq(0, r) as usize] = o::mk(o::ROOK, white);
+            }
+            if p.b[ek] != o::EMPTY || p.b[x] != o::EMPTY || ek == x {
+                return None;
+            }
+            if xk == o::PAWN && (x / 8 == 0 || x / 8 == 7) {
+                return None;
+            }
+            p.b[ek] = o::mk(o::KING, !white);
+            p.b[x] = o::mk(xk, !white);
+            let base = if white { 0 } else { 2 };
+            p.castle[base] = rooks != 2;
+            p.castle[base + 1] = rooks != 1;
+            p.white_to_move = !white;
         }
         Family::EnPassant => {
             let white = take(2) == 0; // the capturing side
@@ -499,6 +533,7 @@ pub fn all_families() -> Vec<Family> {
         Family::Castle,
         Family::EnPassant,
         Family::Promotion,
+        Family::Intruder,
     ]
 }
 
